@@ -2106,10 +2106,8 @@ func (s *Server) ShutdownWithContext(ctx context.Context) (err error) {
 	s.stop.Store(1)
 	defer s.stop.Store(0)
 
-	if s.ln == nil {
-		return nil
-	}
-
+	// A server without listeners may still serve connections passed to
+	// ServeConn: they are waited for below like all the others.
 	lnerr := s.closeListenersLocked()
 
 	if done := s.done.Load(); done != nil && !s.doneClosed {
